@@ -570,3 +570,243 @@ def _g_cms_frombytes(tier, rnd):
             cells = [rnd.randrange(-5, 50) for _ in range(w * d)]
             blob = struct.pack(f"{w * d}i", *cells) + struct.pack("IIq", w, d, rnd.randrange(0, 1000))
             yield {"self": None, "args": {"b": {"__bytes__": blob.hex()}, "hash_function": None}}
+
+
+# ---- serialisation contracts: native cross-check of the stream / struct / hex models ---------------------------------------------
+CBF = "probables.blooms.countingbloom.CountingBloomFilter"
+EBF = "probables.blooms.expandingbloom.ExpandingBloomFilter"
+RBF = "probables.blooms.expandingbloom.RotatingBloomFilter"
+
+
+def _prefixes(rnd):
+    return ["", bytes(rnd.randrange(256) for _ in range(rnd.randrange(1, 7))).hex()]
+
+
+def _natural_blooms(rnd, cls=BF, cellmax=255):
+    for est, fpr in NATURAL_GEOMETRIES:
+        m = natural_m(est, fpr)
+        n = -(-m // 8) if cls == BF else m
+        for cells in ([0] * n, [rnd.randrange(cellmax + 1) for _ in range(n)], [cellmax] * n):
+            for added in (0, 3, 2**40 + 5):
+                yield est, fpr, natural(cls, est, fpr, cells, added)
+
+
+@gen("BloomFilter.export")
+def _g_bf_export(tier, rnd):
+    for est, fpr, rec in _natural_blooms(rnd):
+        for pre in _prefixes(rnd):
+            yield {"self": rec, "args": {"file": {"__bytesio__": pre}}}
+
+
+@gen("BloomFilter.__bytes__", "BloomFilter.export_hex")
+def _g_bf_bytes(tier, rnd):
+    for est, fpr, rec in _natural_blooms(rnd):
+        yield {"self": rec, "args": {}}
+
+
+@gen("BloomFilter.export@CountingBloomFilter")
+def _g_cbf_export(tier, rnd):
+    for est, fpr, rec in _natural_blooms(rnd, CBF, 2**32 - 1):
+        for pre in _prefixes(rnd):
+            yield {"self": rec, "args": {"file": {"__bytesio__": pre}}}
+
+
+@gen("BloomFilter.__bytes__@CountingBloomFilter", "BloomFilter.export_hex@CountingBloomFilter")
+def _g_cbf_bytes(tier, rnd):
+    for est, fpr, rec in _natural_blooms(rnd, CBF, 2**32 - 1):
+        yield {"self": rec, "args": {}}
+
+
+def _blobs(rnd, cls, hexed=False):
+    """exports of real filters (built with the library itself in the native process)"""
+    import importlib
+    mod, name = cls.rsplit(".", 1)
+    K = getattr(importlib.import_module(mod), name)
+    for est, fpr in NATURAL_GEOMETRIES:
+        for nkeys in (0, 1, 4):
+            f = K(est, fpr)
+            for i in range(nkeys):
+                f.add(f"k{rnd.randrange(40)}")
+            yield est, fpr, (f.export_hex() if hexed else bytes(f).hex())
+
+
+@gen("BloomFilter.frombytes")
+def _g_bf_frombytes(tier, rnd):
+    for est, fpr, blob in _blobs(rnd, BF):
+        yield {"self": None, "args": {"b": {"__bytes__": blob}, "hash_function": None}}
+
+
+@gen("CountingBloomFilter.frombytes")
+def _g_cbf_frombytes(tier, rnd):
+    for est, fpr, blob in _blobs(rnd, CBF):
+        yield {"self": None, "args": {"b": {"__bytes__": blob}, "hash_function": None}}
+
+
+def _g_load_for(cls):
+    def g(tier, rnd):
+        for est, fpr, blob in _blobs(rnd, cls):
+            yield {"self": natural(cls, 1, 0.5), "args": {"file": {"__bytes__": blob}, "hash_function": None}}
+    return g
+
+
+GENS["BloomFilter._load"] = _g_load_for(BF)
+GENS["BloomFilter._load@CountingBloomFilter"] = _g_load_for(CBF)
+
+
+def _g_load_hex_for(cls):
+    def g(tier, rnd):
+        for est, fpr, blob in _blobs(rnd, cls, hexed=True):
+            yield {"self": natural(cls, 1, 0.5), "args": {"hex_string": {"__hex__": blob}, "hash_function": None}}
+    return g
+
+
+GENS["BloomFilter._load_hex"] = _g_load_hex_for(BF)
+GENS["BloomFilter._load_hex@CountingBloomFilter"] = _g_load_hex_for(CBF)
+
+
+@gen("BloomFilter._parse_footer")
+def _g_bf_footer(tier, rnd):
+    for est, fpr, blob in _blobs(rnd, BF):
+        yield {"self": None, "args": {"stct": {"__struct__": "QQf"}, "d": {"__bytes__": blob[-40:]}}}
+
+
+@gen("BloomFilter._parse_footer@be")
+def _g_bf_footer_be(tier, rnd):
+    for est, fpr, blob in _blobs(rnd, BF, hexed=True):
+        yield {"self": None, "args": {"stct": {"__struct__": ">QQf"}, "d": {"__bytes__": blob[-40:]}}}
+
+
+@gen("BloomFilter._parse_bloom_array")
+def _g_bf_parse_array(tier, rnd):
+    for est, fpr, blob in _blobs(rnd, BF):
+        n = len(blob) // 2 - 20
+        yield {"self": natural(BF, est, fpr), "args": {"b": {"__bytes__": blob}, "offset": n}}
+
+
+@gen("BloomFilter._parse_bloom_array@CountingBloomFilter")
+def _g_cbf_parse_array(tier, rnd):
+    for est, fpr, blob in _blobs(rnd, CBF):
+        n = len(blob) // 2 - 20
+        yield {"self": natural(CBF, est, fpr), "args": {"b": {"__bytes__": blob}, "offset": n}}
+
+
+@gen("CountMinSketch.export")
+def _g_cms_export(tier, rnd):
+    for w, d, rec in cms_states(tier, rnd):
+        for pre in _prefixes(rnd)[:1 + (w == 1)]:
+            yield {"self": rec, "args": {"file": {"__bytesio__": pre}}}
+
+
+@gen("CountMinSketch.__bytes__")
+def _g_cms_bytes(tier, rnd):
+    for w, d, rec in cms_states(tier, rnd):
+        yield {"self": rec, "args": {}}
+
+
+def _cms_blobs(rnd):
+    import struct
+    for w in (1, 2, 3):
+        for d in (1, 2):
+            cells = [rnd.randrange(-5, 50) for _ in range(w * d)]
+            yield w, d, (struct.pack(f"{w * d}i", *cells) + struct.pack("IIq", w, d, rnd.randrange(-9, 1000))).hex()
+
+
+@gen("CountMinSketch._parse_footer")
+def _g_cms_footer(tier, rnd):
+    for w, d, blob in _cms_blobs(rnd):
+        yield {"self": None, "args": {"file": {"__bytes__": blob}}}
+
+
+@gen("CountMinSketch._parse_bytes")
+def _g_cms_parse(tier, rnd):
+    for w, d, blob in _cms_blobs(rnd):
+        yield {"self": {"__recipe__": CMS + "CountMinSketch", "args": {"width": 1, "depth": 1}}, "args": {"file": {"__bytes__": blob}}}
+
+
+@gen("ExpandingBloomFilter.export")
+def _g_exp_export(tier, rnd):
+    for cls in ("ExpandingBloomFilter", "RotatingBloomFilter"):
+        for m, k, rec in _exp_recipes(cls, tier, rnd, {"max_queue_size": 3} if cls.startswith("Rot") else None):
+            for pre in _prefixes(rnd)[:1]:
+                yield {"self": rec, "args": {"file": {"__bytesio__": pre}}}
+
+
+@gen("ExpandingBloomFilter.__bytes__")
+def _g_exp_bytes(tier, rnd):
+    for cls in ("ExpandingBloomFilter", "RotatingBloomFilter"):
+        for m, k, rec in _exp_recipes(cls, tier, rnd, {"max_queue_size": 3} if cls.startswith("Rot") else None):
+            yield {"self": rec, "args": {}}
+
+
+def _exp_blobs(rnd, cls=EBF):
+    import importlib
+    mod, name = cls.rsplit(".", 1)
+    K = getattr(importlib.import_module(mod), name)
+    for est, fpr in NATURAL_GEOMETRIES:
+        for nkeys in (0, 1, est, 2 * est + 1):
+            f = K(est, fpr) if cls == EBF else K(est, fpr, max_queue_size=4)
+            for i in range(nkeys):
+                f.add(f"k{i}", force=True)
+            if rnd.random() < 0.3:
+                f.push()
+            yield est, fpr, bytes(f).hex()
+
+
+@gen("ExpandingBloomFilter.frombytes")
+def _g_exp_frombytes(tier, rnd):
+    for est, fpr, blob in _exp_blobs(rnd):
+        yield {"self": None, "args": {"b": {"__bytes__": blob}, "hash_function": None}}
+
+
+@gen("RotatingBloomFilter.frombytes")
+def _g_rot_frombytes(tier, rnd):
+    for est, fpr, blob in _exp_blobs(rnd, RBF):
+        yield {"self": None, "args": {"b": {"__bytes__": blob}, "max_queue_size": 4, "hash_function": None}}
+
+
+@gen("ExpandingBloomFilter._parse_footer")
+def _g_exp_footer(tier, rnd):
+    for est, fpr, blob in _exp_blobs(rnd):
+        yield {"self": None, "args": {"b": {"__bytes__": blob}}}
+
+
+@gen("ExpandingBloomFilter._parse_blooms")
+def _g_exp_parse(tier, rnd):
+    import struct
+    for est, fpr, blob in _exp_blobs(rnd):
+        raw = bytes.fromhex(blob)
+        size = struct.unpack("QQQf", raw[-28:])[0]
+        yield {"self": {"__recipe__": EBF, "args": {"est_elements": est, "false_positive_rate": fpr}},
+               "args": {"b": {"__bytes__": blob}, "size": size}}
+
+
+@gen("CuckooFilter.export")
+def _g_ck_export(tier, rnd):
+    for rec in cuckoo_states(tier, rnd):
+        yield {"self": rec, "args": {"file": {"__bytesio__": ""}}}
+
+
+@gen("CuckooFilter.__bytes__")
+def _g_ck_bytes(tier, rnd):
+    for rec in cuckoo_states(tier, rnd):
+        yield {"self": rec, "args": {}}
+
+
+@gen("CuckooFilter._parse_bucket")
+def _g_ck_parse_bucket(tier, rnd):
+    import struct
+    rec = next(iter(cuckoo_states(tier, rnd)))
+    for n in (0, 1, 2, 3, 4):
+        for _ in range(6):
+            cells = [rnd.choice([0, 0, 1, 2, 7, 2**32 - 1]) for _ in range(n)]
+            yield {"self": rec, "args": {"d": {"__bytes__": struct.pack(f"{n}I", *cells).hex()}}}
+
+
+@gen("CuckooFilter._parse_footer")
+def _g_ck_parse_footer(tier, rnd):
+    import struct
+    rec = next(iter(cuckoo_states(tier, rnd)))
+    for cap in (1, 2, 3):
+        for bs in (1, 2, 4):
+            blob = struct.pack(f"{cap * bs}I", *[rnd.randrange(0, 9) for _ in range(cap * bs)]) + struct.pack("II", bs, rnd.randrange(1, 9))
+            yield {"self": rec, "args": {"d": {"__bytes__": blob.hex()}, "stct": {"__struct__": "II"}}}
